@@ -317,6 +317,9 @@ def run(ctx):
         check_format_args(ctx, prog, tag)
         from .c01_search import check_search_loops
         check_search_loops(ctx, prog, tag)
+        from .c01_arith import check_builtin_arithmetic
+        if cname == "MAX":
+            check_builtin_arithmetic(ctx, prog, tag)
         for fn_, what in (("minijinja::filters::builtins::indent", "indent width"), ("minijinja::filters::builtins::tojson", "tojson indent")):
             f = prog.fns.get(fn_)
             if f is None:
